@@ -26,6 +26,7 @@ RULE = ('cases = kernels (hand-assembled from TLC behaviours of CUSchedScen, fro
         'while siblings are unfinished')
 TSPEC = {'dirs': ['cusched'], 'module': 'CUSchedTrace.tla', 'cfg': 'CUSchedTrace.cfg', 'timeout': 1500}
 
+BARRIER_BUFFER = 16  # SchedulerImpl.barrierBufferSize
 SCALE = 6  # cycles per behaviour step when a TLC schedule is turned into latencies
 
 
@@ -225,6 +226,12 @@ def fixed_scenarios():
                  'wgs': [{'k': 0, 'at': 0}], 'mem': env, 'vals': True}, True))
     out.append(({'name': 'table_exit_last', 'kernels': [{'mode': 'table', 'progs': [['bar', 'end'], nops + ['end']]}],
                  'wgs': [{'k': 0, 'at': 0}], 'mem': env, 'vals': True}, True))
+    # 15 wavefronts of group 1 and one of group 2 fill the barrier buffer (16), a second wavefront of group 2 waits outside
+    # it, the third one of group 2 then ends: evalSEndPgm releases the barrier
+    filler = [['bar', 'end']] * 15 + [['nop'] * 600 + ['bar', 'end']]
+    grp = [['nop'] * 100 + ['bar', 'alu', 'alu', 'gst', 'end'], ['nop'] * 200 + ['bar', 'alu', 'alu', 'gst', 'end'], ['nop'] * 320 + ['end']]
+    out.append(({'name': 'full_barrier_buffer_exit_last', 'kernels': [{'mode': 'table', 'progs': filler}, {'mode': 'table', 'progs': grp}],
+                 'wgs': [{'k': 0, 'at': 0}, {'k': 1, 'at': 0}], 'mem': env, 'vals': True}, True))
     # six one-wavefront groups finishing while the dispatcher does not take completions (ToACE holds 4)
     out.append(({'name': 'ace_backpressure', 'kernels': [{'mode': 'table', 'progs': [['gst', 'end']]}] * 1,
                  'wgs': [{'k': 0, 'at': 0}] * 7, 'mem': env, 'vals': True, 'acehold': [[0, 1500]]}, False))
@@ -257,28 +264,39 @@ def signature(bad, at, v2):
     sig = {'mode': mode}
     nbar, ended, ended_short = {}, {}, set()
     last_issue = {}
+    parked = set()          # wavefronts whose latest instruction is an s_barrier
+    full_release = False    # a wavefront ended, with siblings at a barrier, while > 16 wavefronts were parked on the CU
     for i, r in enumerate(bad[:at]):
         if r['e'] == 'Issue':
             last_issue[r['w']] = r['k']
+            parked.discard(r['w'])
             if r['k'] == 'bar':
                 nbar[r['w']] = nbar.get(r['w'], 0) + 1
+                parked.add(r['w'])
         if r['e'] == 'WfEnd':
             ended[r['w']] = i
+            g = wg.get(r['w'])
+            sibs = [x for x in wg if wg[x] == g and x != r['w'] and x not in ended]
+            if len(parked) > BARRIER_BUFFER and sibs and all(x in parked for x in sibs):
+                full_release = True
     # a wavefront that ended having issued fewer barriers than a sibling of its group has issued by now
     for w in ended:
         for x in wg:
             if x != w and wg.get(x) == wg.get(w) and nbar.get(x, 0) > nbar.get(w, 0):
                 ended_short.add(w)
+    if ev.get('e') in ('Issue', 'InstEnd'):
+        sig['k'] = ev.get('k')
     if ev.get('e') == 'Panic':
         sig['msg'] = str(ev.get('msg'))[:80]
+    if mode == 'timing' and full_release:
+        sig['cause'] = 'endpgm_released_barrier_with_full_barrier_buffer'
+    elif ev.get('e') == 'Panic':
         sig['cause'] = 'sibling_ended_before_barrier' if ended_short else 'other'
-    if ev.get('e') == 'Quiesce':
+    elif ev.get('e') == 'Quiesce':
         stuck = [w for w in wg if w not in ended]
         at_bar = bool(stuck) and all(last_issue.get(w) == 'bar' for w in stuck)
         grp_has_short = all(any(wg[e] == wg[w] for e in ended_short) for w in stuck) if stuck else False
         sig['cause'] = 'parked_at_barrier_after_sibling_ended' if (at_bar and grp_has_short) else 'other'
-    if ev.get('e') in ('Issue', 'InstEnd'):
-        sig['k'] = ev.get('k')
     return sig
 
 
@@ -444,6 +462,7 @@ def _validate(ctx, tfile, scen, tag):
     j = out.find('<<"HIGHWATER"', i)
     rej = vlib.tlaval.parse_value(out[i:j])[1]
     bad_parts = set()
+    new_here = 0
     for rj in rej:
         line = rj['l']
         idx = max(k for k, (start, _) in enumerate(parts) if start <= line)
@@ -462,6 +481,11 @@ def _validate(ctx, tfile, scen, tag):
         replay = {'driver': {'cmd': 'c14', 'scenarios': [scen[case]] if case is not None and case < len(scen) else scen, 'tag': tag},
                   'trace_spec': [TSPEC['dirs'], TSPEC['module'], TSPEC['cfg']], 'failing_index': at, 'trace': recs}
         if ctx.known_match(sig) is None:
+            if new_here >= 2:
+                # two confirmed violations per trace file are enough; the others are only counted
+                ctx.cov['further_unconfirmed_rejections'] = ctx.cov.get('further_unconfirmed_rejections', 0) + 1
+                continue
+            new_here += 1
             sub = os.path.join(ctx.scratch, 'sub_%s_%d.ndjson' % (tag, idx))
             vlib.write_ndjson(sub, recs)
             v2 = ctx.validate_trace(TSPEC['dirs'], TSPEC['module'], TSPEC['cfg'], sub, timeout=TSPEC['timeout'])
@@ -549,6 +573,13 @@ def run(ctx, selftest=False):
         raise vlib.Infra('as-implemented model check failed unexpectedly: %s %s' % (r.violated, r.error))
     else:
         ctx.notes.append('as-implemented deviation no longer breaks NoHang in the model')
+
+    r = ctx.tlc(['cusched'], 'MC_CUSched.tla', 'MC_CUSched_asimpl2.cfg', timeout=900, workers=2)
+    if r.violated:
+        ctx.log('as-implemented model (EndpgmReleaseKeepsInternal, barrier buffer of 1): %s violated after %d steps; the scenario '
+                'full_barrier_buffer_exit_last is this counterexample scaled to the real buffer of 16' % (','.join(r.violated), len(r.counterexample())))
+    elif not r.completed:
+        raise vlib.Infra('as-implemented model check (2) failed unexpectedly: %s' % r.error)
 
     # 2. spec -> code: behaviours of the model become kernels and environments
     scen = []
